@@ -1,11 +1,13 @@
 #!/bin/bash
-# seeded.sh [apply]  : runs every kept seeded change against the quick tier of its property.
-# Default: through the build overlay (--mutant, /repo untouched). With "apply": literally
+# seeded.sh [overlay|apply] [glob] : runs every kept seeded change (or those matching glob) against the quick
+# tier of its property and merges the rows into seeded/RESULTS.tsv.
+# overlay (default): through the build overlay (--mutant, /repo untouched). apply: literally
 # `git -C /repo apply`, run, `git -C /repo checkout -- .` (only when nothing else uses /repo).
 cd /verif
-mode=$1
+mode=${1:-overlay}; pat=${2:-C*}
 out=seeded/RESULTS.tsv; tmp=$(mktemp)
-for d in seeded/C*/; do
+[ -f $out ] && grep -v "^seeded_change" $out > $tmp.old || : > $tmp.old
+for d in seeded/$pat/; do [ -d "$d" ] || continue
   name=$(basename $d); id=${name%%-*}
   s=$(date +%s)
   if [ "$mode" = apply ]; then
@@ -17,7 +19,8 @@ for d in seeded/C*/; do
   fi
   v=$(echo "$o" | sed -n 's/.* violations=\([0-9]*\) .*/\1/p' | tail -1)
   cause=$(echo "$o" | grep -m1 "cause=" | sed 's/^ *cause=//' | cut -c1-160)
-  printf "%s\t%s\t%s\t%s\t%s\t%s\n" "$name" "${mode:-overlay}" "$rc" "${v:-0}" "$cause" "$(( $(date +%s)-s ))" >> $tmp
+  grep -v "^$name	$mode	" $tmp.old > $tmp.new; mv $tmp.new $tmp.old
+  printf "%s\t%s\t%s\t%s\t%s\t%s\n" "$name" "$mode" "$rc" "${v:-0}" "$cause" "$(( $(date +%s)-s ))" >> $tmp.old
   echo "$name rc=$rc violations=${v:-0} $cause"
 done
-{ printf "seeded_change\tmode\texit\tviolations\tfirst_cause\tseconds\n"; sort $tmp; } > $out; rm -f $tmp
+{ printf "seeded_change\tmode\texit\tviolations\tfirst_cause\tseconds\n"; sort $tmp.old; } > $out; rm -f $tmp $tmp.old
